@@ -3,7 +3,7 @@
 //
 //   zone <name> <parent|-> <full|floyd|dijkstra|dijkstracache|star|empty|vivaldi>
 //         parent "-" = child of the default root zone "_world_" (a Full zone)
-//   torus <name> <parent|-> <d1,d2,..> <loopback 0/1> <limiter 0/1> <shared|split> <lat>
+//   torus <name> <parent|-> <d1,d2,..> <loopback 0/1> <limiter 0/1> <shared|split> <lat> [gw]   (gw: router <name>_gw created after the hosts, default gateway)
 //   fattree <name> <parent|-> <levels> <down,..> <up,..> <count,..> <loopback> <limiter> <shared|split> <lat>
 //   dragonfly <name> <parent|-> <g,gl> <c,cl> <r,rl> <n> <loopback> <limiter> <shared|split> <lat>
 //         hosts are "<zone>_h<id>", loopbacks "<zone>_lb<id>" (latency 100+id), limiters "<zone>_lim<id>" (1000+id)
@@ -16,6 +16,7 @@
 //   dump                               all ordered host pairs (hosts sorted by name), including src == dst
 //   pair <src> <dst>
 //   dumptree                           Z <zone> <parent|-> <netpoint> <default gateway|->  /  N <netpoint> <zone> <host|router|zone>
+//   dumplinks                          K <link> <latency>
 //   dumplocal                          every zone's own get_local_route for all ordered pairs of its vertices:
 //                                      L <zone> <src> <dst> <latency> <gw_src|-> <gw_dst|-> <links...>  or  LX <zone> <src> <dst> <msg>
 // Output, one line per pair:  R <src> <dst> <latency %.17g> <link names...>   or   X <src> <dst> <exception text>
@@ -84,10 +85,14 @@ static std::vector<sg4::LinkInRoute> links_of(const std::vector<std::string>& t,
   }
   return v;
 }
-static void cluster_cbs(sg4::NetZone* z, const std::string& name, bool lb, bool lim)
+static void cluster_cbs(sg4::NetZone* z, const std::string& name, bool lb, bool lim, unsigned long gw_after = 0)
 {
-  z->set_host_cb([name](sg4::NetZone* zone, const std::vector<unsigned long>&, unsigned long id) {
-    return zone->add_host(name + "_h" + std::to_string(id), 1e9);
+  // gw_after = n > 0: once the n-th (last) host exists, add a router "<zone>_gw" (netpoint id n) and make it the gateway
+  z->set_host_cb([name, gw_after](sg4::NetZone* zone, const std::vector<unsigned long>&, unsigned long id) {
+    auto* h = zone->add_host(name + "_h" + std::to_string(id), 1e9);
+    if (gw_after > 0 && id + 1 == gw_after)
+      zone->set_gateway(zone->add_router(name + "_gw"));
+    return h;
   });
   if (lb)
     z->set_loopback_cb([name](sg4::NetZone* zone, const std::vector<unsigned long>&, unsigned long id) {
@@ -199,8 +204,14 @@ int main(int argc, char** argv)
         zones[t[1]] = z;
       } else if (c == "torus") {
         auto* z = parent_of(t[2])->add_netzone_torus(t[1], csv(t[3]), 1e9, std::stod(t[7]), pol(t[6]));
-        cluster_cbs(z, t[1], t[4] == "1", t[5] == "1");
+        unsigned long n = 1;
+        for (auto d : csv(t[3]))
+          n *= d;
+        bool gw = t.size() > 8 && t[8] == "gw";
+        cluster_cbs(z, t[1], t[4] == "1", t[5] == "1", gw ? n : 0);
         zones[t[1]] = z;
+        if (gw)
+          z->seal(); // as the XML loader does: the hosts (and the gateway router) exist from now on
       } else if (c == "fattree") {
         auto* z = parent_of(t[2])->add_netzone_fatTree(t[1], std::stoul(t[3]), csvu(t[4]), csvu(t[5]), csvu(t[6]), 1e9,
                                                        std::stod(t[10]), pol(t[9]));
@@ -238,6 +249,9 @@ int main(int argc, char** argv)
         for (auto* a : hosts)
           for (auto* b : hosts)
             one_pair(a, b);
+      } else if (c == "dumplinks") {
+        for (auto* l : e.get_all_links())
+          printf("K %s %.17g\n", l->get_cname(), l->get_latency());
       } else if (c == "dumptree") {
         dump_zone(e.get_netzone_root()->get_impl(), false);
       } else if (c == "dumplocal") {
